@@ -27,11 +27,12 @@ decreasing_by omega
 def numLen (m : Nat) : Nat := byteLen (2 * m)
 
 /-- CScriptNum::serialize for an integer of any size: `numLen |z|` little-endian bytes of the
-    magnitude, the sign in the top bit of the last byte; zero is the empty string. -/
+    magnitude, the sign in the top bit (value 128·256^(k−1)) of the last byte; zero is the empty
+    string. -/
 def numEncode (z : Int) : Bytes :=
   let m := z.natAbs
   let k := numLen m
-  leBytes k (if z < 0 then m + 2 ^ (8 * k - 1) else m)
+  leBytes k (if z < 0 then m + 128 * 256 ^ (k - 1) else m)
 
 /-- CScriptNum::set_vch (without the size limit): little-endian magnitude, top bit of the last
     byte is the sign and is not part of the magnitude. -/
